@@ -60,11 +60,15 @@ impl PersisterTask {
 
     /// Sends the batch bytes to the persister task (fire-and-forget).
     pub async fn persist(&self, batch_to_write: RetainedMessageBatch) {
+        #[cfg(feature = "iggy_verif")]
+        crate::verif::write_queued();
         if let Err(e) = self
             .sender
             .send_async(PersisterTaskCommand::WriteRequest(batch_to_write))
             .await
         {
+            #[cfg(feature = "iggy_verif")]
+            crate::verif::write_done();
             error!(
                 "Failed to send write request to LogPersisterTask for file {}: {:?}",
                 self.file_path, e
@@ -195,6 +199,8 @@ impl PersisterTask {
                         )
                         }
                     }
+                    #[cfg(feature = "iggy_verif")]
+                    crate::verif::write_done();
                 }
                 PersisterTaskCommand::Shutdown => {
                     trace!("LogPersisterTask for file {file_path} received shutdown command");
